@@ -1,0 +1,19 @@
+//go:build verif
+
+package plonk
+
+import (
+	gl "github.com/wormhole-foundation/example-near-light-client/goldilocks"
+	"github.com/wormhole-foundation/example-near-light-client/plonk/gates"
+	"github.com/wormhole-foundation/example-near-light-client/variables"
+)
+
+// Test-only export wrappers for the external verification harness (build tag "verif").
+
+func (p *PlonkChip) VerifEvalVanishingPoly(vars gates.EvaluationVars, ch variables.ProofChallenges, openings variables.OpeningSet, zetaPowN gl.QuadraticExtensionVariable) []gl.QuadraticExtensionVariable {
+	return p.evalVanishingPoly(vars, ch, openings, zetaPowN)
+}
+
+func (p *PlonkChip) VerifZetaPowN(z gl.QuadraticExtensionVariable) gl.QuadraticExtensionVariable {
+	return p.expPowerOf2Extension(z)
+}
